@@ -60,7 +60,7 @@ var basicTypes = map[string]types.Type{
 
 var builtinFns = map[string]bool{"len": true, "cap": true, "old": true, "region": true, "offset": true, "fresh": true, "allocated": true,
 	"rsize": true, "istype": true, "astype": true, "bytesat": true, "same": true, "addr": true, "avail": true, "typeid": true, "strof": true,
-	"nilslice": true, "maplen": true, "bytesof": true, "isnil": true, "implements": true, "snap": true, "eqbytes": true, "writable": true, "apply": true, "ufbool": true, "ufint": true, "ufstr": true}
+	"nilslice": true, "maplen": true, "bytesof": true, "isnil": true, "implements": true, "snap": true, "eqbytes": true, "writable": true, "apply": true, "ufbool": true, "ufint": true, "ufstr": true, "strwin": true}
 
 func (en *Env) importPath(name string) string {
 	if name == "vs" {
@@ -350,13 +350,14 @@ func (en *Env) ghostModel(b TV, name string) (*Clause, types.Type, *Term) {
 	if dt == nil {
 		return nil, nil, nil
 	}
-	pt, ok := dt.Underlying().(*types.Pointer)
-	if !ok {
-		return nil, nil, nil
-	}
 	var tn *types.TypeName
-	switch n := types.Unalias(pt.Elem()).(type) {
-	case *types.Named:
+	if pt, ok := dt.Underlying().(*types.Pointer); ok {
+		switch n := types.Unalias(pt.Elem()).(type) {
+		case *types.Named:
+			tn = n.Obj()
+		}
+	} else if n, ok := types.Unalias(dt).(*types.Named); ok {
+		// a struct value boxed in an interface: the model may not depend on self's fields
 		tn = n.Obj()
 	}
 	if tn == nil || tn.Pkg() == nil {
@@ -415,11 +416,22 @@ func (en *Env) selector(b TV, sel string) TV {
 		if m, dt, ref := en.ghostModel(b, sel); m != nil {
 			// the ghost field is defined by the abstraction function of the handle's dynamic type
 			sub := *en
-			sub.vars = map[string]TV{"self": {V: VRef{ref}, T: dt}}
+			sub.vars = map[string]TV{}
+			if _, isPtr := dt.Underlying().(*types.Pointer); isPtr {
+				sub.vars["self"] = TV{V: VRef{ref}, T: dt}
+			}
 			sub.ovars = sub.vars
 			sub.fr = nil
-			if tp := en.x.e.tpkgs[dt.Underlying().(*types.Pointer).Elem().(*types.Named).Obj().Pkg().Path()]; tp != nil {
-				sub.pkg = tp.Types
+			var nt *types.Named
+			if pt, ok := dt.Underlying().(*types.Pointer); ok {
+				nt, _ = types.Unalias(pt.Elem()).(*types.Named)
+			} else {
+				nt, _ = types.Unalias(dt).(*types.Named)
+			}
+			if nt != nil && nt.Obj().Pkg() != nil {
+				if tp := en.x.e.tpkgs[nt.Obj().Pkg().Path()]; tp != nil {
+					sub.pkg = tp.Types
+				}
 			}
 			return sub.eval(m.E)
 		}
@@ -938,6 +950,17 @@ func (en *Env) call(c ECall) TV {
 				st.assume(st.stringWF(sv))
 			}
 			return TV{V: sv, T: strT}
+		case "strwin":
+			// strwin(s, delta, n): the window of length n of the byte array underlying string s that
+			// starts delta bytes after the start of s (delta may be negative)
+			a := en.defaultType(en.eval(c.Args[0]))
+			sv, ok := a.V.(VString)
+			if !ok {
+				en.fail("strwin needs a string")
+			}
+			d := en.toInt(en.eval(c.Args[1]))
+			n := en.toInt(en.eval(c.Args[2]))
+			return TV{V: VString{Reg: sv.Reg, Arr: sv.Arr, Off: e.ar.Bin(token.ADD, tInt, sv.Off, d), Len: n}, T: types.Typ[types.String]}
 		case "apply":
 			// apply(f, args...): the (first) result of calling the function value f, as modelled for
 			// calls through function values (a deterministic function of f and the arguments)
